@@ -55,3 +55,4 @@ func verifEngineOnly()
 func verifNote(s string)
 func verifAt(b []byte, i int) uint8
 func verifAtU32(s []uint32, i int) uint32
+func verifWant(id string)
